@@ -36,6 +36,38 @@ class UtilsStub:
 NLMUL = core.TIMES
 
 
+def split_clauses(clauses):
+    """an invariant `holds == (entry /\\ rows)` is kept as two clauses: SOUND  holds => entry /\\ rows  (a property clause: an admitted
+    assignment violating the specification is a violation) and COMPLETE  entry /\\ rows => holds  (auxiliary: an encoding that excludes more
+    than the specification - a valid cut, symmetry breaking, a tighter bound - may or may not cut off every optimum; that is decided by the
+    bounded comparison with the exact oracles, never reported as a violation from here)."""
+    out = {}
+    for nm, t in clauses.items():
+        if z3.is_eq(t) and t.arg(0).sort() == BOOL:
+            out[nm + " [SOUND]"] = z3.Implies(t.arg(0), t.arg(1))
+            out[nm + " [COMPLETE]"] = z3.Implies(t.arg(1), t.arg(0))
+        elif z3.is_and(t) and t.num_args() == 2 and z3.is_eq(t.arg(0)) and t.arg(0).arg(0).sort() == BOOL:
+            e = t.arg(0)
+            out[nm + " [SOUND]"] = z3.And(z3.Implies(e.arg(0), e.arg(1)), t.arg(1))
+            out[nm + " [COMPLETE]"] = z3.Implies(e.arg(1), e.arg(0))
+        else:
+            out[nm] = t
+    return out
+
+
+def sound_only(P):
+    return lambda nm: None if nm.endswith("[COMPLETE]") else P
+
+
+def split_loops(loops, P):
+    for k_, sp in loops.items():
+        f0 = sp["inv"]
+        sp["inv"] = (lambda f0: (lambda ns, seq, done: split_clauses(f0(ns, seq, done))))(f0)
+        sp["prop"] = sound_only(P)
+    return loops
+
+
+
 def mul(a, b):
     """the product of two column values.  In the quantified (unbounded) harnesses multiplication of two non-constant terms is the
     uninterpreted symbol `times` with the facts used (0*b = b*0 = 0, 1*b = b*1 = b): everything proved for an arbitrary such function holds for
@@ -441,7 +473,7 @@ def edge_encoder(relpath, qualname, P, wt, fams, products, summed, edge_rows, ex
         spec = z3.ForAll([u, v], z3.Implies(z3.And(g.EDGE(u, v), z3.Not(IGN(u, v))), rows_sym(g, k, u, v)))
         full = z3.And(H0, bounds_sym(c, g, k, wmax), spec)
         c.prove("post:SOUND-every-admitted-assignment-satisfies-on-each-non-ignored-edge: " + what, z3.Implies(H, full), prop=P)
-        c.prove("post:COMPLETE-nothing-else-is-excluded", z3.Implies(full, H), prop=P)
+        c.prove("post:COMPLETE-nothing-else-is-excluded", z3.Implies(full, H), prop=None, kind="complete")
 
     def concrete(inst):
         """the same contract on a concrete graph / k / fixings: rows are a finite conjunction, the clause is quantifier-free"""
@@ -494,7 +526,7 @@ def edge_encoder(relpath, qualname, P, wt, fams, products, summed, edge_rows, ex
                 spec.append(z3.And(edge_rows(u, v, S, FLOWC(u, v)), *[pr(u, v, i) for pr in products for i in range(k)]))
             full = z3.And(H0, *bnd, *spec)
             c.prove("instance:SOUND-every-admitted-assignment-satisfies-the-specified-rows-on-each-non-ignored-edge", z3.Implies(H, full), prop=P)
-            c.prove("instance:COMPLETE-nothing-else-is-excluded", z3.Implies(full, H), prop=P)
+            c.prove("instance:COMPLETE-nothing-else-is-excluded", z3.Implies(full, H), prop=None, kind="complete")
         return hc
 
     def instances():
@@ -516,7 +548,7 @@ def edge_encoder(relpath, qualname, P, wt, fams, products, summed, edge_rows, ex
 
     def sum_builtin(it, start=0):
         return st["sum_builtin"](it) if "sum_builtin" in st and not isinstance(it, (list, tuple)) and core.ctx() is not None and not _is_concrete(it) else Solver.quicksum(None, it)
-    return Unit(relpath, qualname, h, globs=dict(utils=UtilsStub, sum=sum_builtin), loops=loops, props=[P],
+    return Unit(relpath, qualname, h, globs=dict(utils=UtilsStub, sum=sum_builtin), loops=split_loops(loops, P), props=[P],
                 name="%s:%s[weight_type=%s]" % (relpath, qualname, wt.__name__), instances=instances,
                 callee_contracts=[A1C], assumptions=[A3, ("requires: the rows / column bounds added before (by _encode_walks / safety fixing) make every edge variable an integer in [0, w_max] and force the recorded zero / one "
                                                          "fixings; `holds` is the projection onto the model's own columns (the product helper's bit and component columns are existentially quantified, as in its C12 contract). "
@@ -693,7 +725,7 @@ def u_min_error_flow(wt):
                 z3.BoolVal({nm: r["var_type"] for nm, r in sol.created.items()} == {"edge_vars": "integer" if wt is int else "continuous", "edge_error_vars": "integer" if wt is int else "continuous"}
                            and all(r["indexes"].name == "all_edges" for r in sol.created.values())), prop=P)
         c.prove("post:SOUND-every-admitted-assignment-conserves-flow-at-every-inner-node-and-its-error-columns-bound-|value - corrected|-(0-on-ignored-edges)", z3.Implies(H, full), prop=P)
-        c.prove("post:COMPLETE-nothing-else-is-excluded", z3.Implies(full, H), prop=P)
+        c.prove("post:COMPLETE-nothing-else-is-excluded", z3.Implies(full, H), prop=None, kind="complete")
         c.prove("post:normal-return-only-if-every-non-ignored-edge-has-a-value", z3.ForAll([u, v], z3.Implies(z3.And(g.EDGE(u, v), z3.Not(IGN(u, v))), HAS(u, v))), prop=P)
 
     def concrete(inst):
@@ -743,7 +775,7 @@ def u_min_error_flow(wt):
                 rows.append(ER(a, b) == 0 if (a, b) in ign else z3.And(FLOWC(a, b) - XV(a, b) <= ER(a, b), XV(a, b) - FLOWC(a, b) <= ER(a, b)))
             full = z3.And(H0, *rows)
             c.prove("instance:SOUND-every-admitted-assignment-conserves-flow-at-every-inner-node-and-its-error-columns-bound-the-change", z3.Implies(H, full), prop=P)
-            c.prove("instance:COMPLETE-nothing-else-is-excluded", z3.Implies(full, H), prop=P)
+            c.prove("instance:COMPLETE-nothing-else-is-excluded", z3.Implies(full, H), prop=None, kind="complete")
         return hc
 
     def instances():
@@ -761,7 +793,7 @@ def u_min_error_flow(wt):
     loops = {0: dict(inv=inv_nodes, prop=P, modifies=mod, keep=("node",)),
              1: dict(inv=inv_edges, prop=P, on_entry=on_entry_edges, modifies=mod, keep=("u", "v", "data", "f_u_v"))}
 
-    unit = Unit("flowpaths/minerrorflow.py", "MinErrorFlow._encode_flow", h, globs=dict(utils=UtilsStub), loops=loops, props=[P],
+    unit = Unit("flowpaths/minerrorflow.py", "MinErrorFlow._encode_flow", h, globs=dict(utils=UtilsStub), loops=split_loops(loops, P), props=[P],
                 name="flowpaths/minerrorflow.py:MinErrorFlow._encode_flow[weight_type=%s]" % wt.__name__, callee_contracts=[A1C], instances=instances,
                 assumptions=[A3, "A2 networkx: in_edges(v) / out_edges(v) enumerate the edges into / out of v; in_degree / out_degree are their counts"])
     return unit
@@ -941,7 +973,7 @@ def u_encode_paths(allow_empty):
         c.prove("post:SOUND-in-every-admitted-assignment-each-layer-sends-%s-unit-out-of-the-source-and-conserves-it-at-every-inner-node%s"
                 % ("at-most-one" if allow_empty else "exactly-one", ";-every-constraint-has-a-responsible-layer-that-uses-at-least-length*coverage-of-its-edges" if has_c else ""),
                 z3.Implies(H, full), prop=P)
-        c.prove("post:COMPLETE-nothing-else-is-excluded", z3.Implies(full, H), prop=P)
+        c.prove("post:COMPLETE-nothing-else-is-excluded", z3.Implies(full, H), prop=None, kind="complete")
 
     def concrete(inst):
         def hc(c, f):
@@ -994,7 +1026,7 @@ def u_encode_paths(allow_empty):
                     rows.append(S([R(i, j) for i in range(k)]) >= 1)
             full = z3.And(H0, *rows)
             c.prove("instance:SOUND-each-layer-is-a-unit-source-to-sink-flow-of-0/1-indicators-and-every-constraint-is-covered-by-a-responsible-layer", z3.Implies(H, full), prop=P)
-            c.prove("instance:COMPLETE-nothing-else-is-excluded", z3.Implies(full, H), prop=P)
+            c.prove("instance:COMPLETE-nothing-else-is-excluded", z3.Implies(full, H), prop=None, kind="complete")
         return hc
 
     def instances():
@@ -1013,7 +1045,7 @@ def u_encode_paths(allow_empty):
              3: dict(inv=inv3, prop=P, modifies=mod, on_entry=snap("H_l3"), keep=("i", "j", "constraint_length", "coverage_fraction")),
              4: dict(inv=inv4, prop=P, modifies=mod, on_entry=snap("H_l4", ("i",)), keep=("j", "constraint_length", "coverage_fraction")),
              5: dict(inv=inv5, prop=P, modifies=mod, on_entry=snap("H_l5"), keep=("j",))}
-    return Unit("flowpaths/abstractpathmodeldag.py", "AbstractPathModelDAG._encode_paths", h, globs=dict(utils=UtilsStub), loops=loops, props=["C01", "C10"],
+    return Unit("flowpaths/abstractpathmodeldag.py", "AbstractPathModelDAG._encode_paths", h, globs=dict(utils=UtilsStub), loops=split_loops(loops, P), props=["C01", "C10"],
                 name="flowpaths/abstractpathmodeldag.py:AbstractPathModelDAG._encode_paths[allow_empty_paths=%s]" % allow_empty, callee_contracts=[A1C], instances=instances,
                 assumptions=[A3, "A2 networkx: successors(v) / predecessors(v) enumerate the out- / in-neighbours of v",
                              "requires: constraint edges are edges of the graph (validated by the constructor, C19); coverage counted in edges (subpath_constraints_coverage_length is None); "
@@ -1084,7 +1116,7 @@ def u_cover(relpath, qualname, cons_attr):
         u, v = z3.Ints("pu pv")
         spec = z3.ForAll([u, v], z3.Implies(z3.And(g.EDGE(u, v), z3.Not(IGN(u, v))), row(u, v)))
         c.prove("post:SOUND-in-every-admitted-assignment-every-non-ignored-edge-is-used-by-at-least-one-layer", z3.Implies(H, z3.And(st["H0"], spec)), prop=P)
-        c.prove("post:COMPLETE-nothing-else-is-excluded-(ignored-edges-carry-no-cover-row)", z3.Implies(z3.And(st["H0"], spec), H), prop=P)
+        c.prove("post:COMPLETE-nothing-else-is-excluded-(ignored-edges-carry-no-cover-row)", z3.Implies(z3.And(st["H0"], spec), H), prop=None, kind="complete")
         c.prove("post:no-column-is-created", z3.BoolVal(not sol.created), prop=P)
 
     def concrete(inst):
@@ -1108,7 +1140,7 @@ def u_cover(relpath, qualname, cons_attr):
             H = lift(sol.store.holds)
             full = z3.And(H0, *[sum([X(a, b, i) for i in range(k)], z3.RealVal(0)) >= 1 for (a, b) in E if (a, b) not in ign])
             c.prove("instance:SOUND-every-non-ignored-edge-is-used-by-at-least-one-layer", z3.Implies(H, full), prop=P)
-            c.prove("instance:COMPLETE-nothing-else-is-excluded", z3.Implies(full, H), prop=P)
+            c.prove("instance:COMPLETE-nothing-else-is-excluded", z3.Implies(full, H), prop=None, kind="complete")
         return hc
 
     def instances():
@@ -1117,7 +1149,7 @@ def u_cover(relpath, qualname, cons_attr):
     fresh = lambda old: Sym(z3.Bool(core.ctx().name("H")))
     # loops 0/1 build the set of constraint edges (no constraints in this contract: they run natively zero times); loop 2 is the edge loop
     loops = {2: dict(inv=inv, prop=P, modifies=[(("self", "solver", "store", "holds"), fresh)], keep=("u", "v"))}
-    return Unit(relpath, qualname, h, globs=dict(utils=UtilsStub, set=SmallSet), loops=loops, props=[P], instances=instances, callee_contracts=[A1C],
+    return Unit(relpath, qualname, h, globs=dict(utils=UtilsStub, set=SmallSet), loops=split_loops(loops, P), props=[P], instances=instances, callee_contracts=[A1C],
                 assumptions=[A3, "no sub-path / subset constraints given (with constraints at full coverage the code may skip the cover row of a constraint edge; that case is decided by the bounded part)"])
 
 
@@ -1278,7 +1310,7 @@ def u_subset_constraints():
         c.prove("post:columns:one-0/1-responsibility-indicator-per-(layer,constraint)-and-one-0/1-used-indicator-per-(edge,layer)",
                 z3.BoolVal(set(sol.created) == {"r", "used_edge"} and all(r["var_type"] == "integer" for r in sol.created.values())), prop=P)
         c.prove("post:SOUND-every-constraint-has-a-responsible-layer-that-USES-(not:-traverses-often)-at-least-|distinct edges|*coverage-of-its-edges", z3.Implies(H, full), prop=P)
-        c.prove("post:COMPLETE-nothing-else-is-excluded", z3.Implies(full, H), prop=P)
+        c.prove("post:COMPLETE-nothing-else-is-excluded", z3.Implies(full, H), prop=None, kind="complete")
         # what the used-indicator means, given the multiplicity bounds of the edge variables
         c.prove("post:the-used-indicator-is-min(1,-multiplicity)",
                 z3.Implies(z3.And(H, z3.ForAll([a_, b_, i_], z3.Implies(edge_pred(a_, b_, i_), z3.And(X(a_, b_, i_) >= 0, z3.IsInt(X(a_, b_, i_)))))),
@@ -1321,7 +1353,7 @@ def u_subset_constraints():
             rows += [S([R(i, j) for i in range(k)]) >= 1 for j in range(len(cons))]
             full = z3.And(H0, *rows)
             c.prove("instance:SOUND-every-constraint-has-a-responsible-layer-that-uses-the-requested-share-of-its-distinct-edges", z3.Implies(H, full), prop=P)
-            c.prove("instance:COMPLETE-nothing-else-is-excluded", z3.Implies(full, H), prop=P)
+            c.prove("instance:COMPLETE-nothing-else-is-excluded", z3.Implies(full, H), prop=None, kind="complete")
         return hc
 
     def instances():
@@ -1342,7 +1374,7 @@ def u_subset_constraints():
         if isinstance(x, (list, tuple)):
             return sorted(set(x))            # concrete instance (sorted: a deterministic enumeration)
         return st["set_"](x)
-    u = Unit("flowpaths/abstractwalkmodeldigraph.py", "AbstractWalkModelDiGraph._encode_subset_constraints", h, globs=dict(utils=UtilsStub, set=set_glob), loops=loops, props=["C10", "C04"],
+    u = Unit("flowpaths/abstractwalkmodeldigraph.py", "AbstractWalkModelDiGraph._encode_subset_constraints", h, globs=dict(utils=UtilsStub, set=set_glob), loops=split_loops(loops, P), props=["C10", "C04"],
              instances=instances, callee_contracts=[A1C],
              assumptions=[A3, "requires: constraint edges are edges of the graph (validated by the constructor, C19)",
                           "set(constraint) is modelled as an enumeration without repetition of the constraint's distinct edges (a finite set has one); the raw list is not read otherwise"])
@@ -1471,7 +1503,7 @@ def u_mingenset(wt, multi):
                       z3.ForAll([i_], z3.Implies(z3.And(i_ >= 0, i_ < k - 2), B(i_) <= B(i_ + 1))))
         c.prove("post:SOUND-every-admitted-assignment-is-a-generating-set: the k elements sum to total and every number is a sum of (multiplicity x element) with multiplicities <= max_multiplicity",
                 z3.Implies(H, full), prop=P)
-        c.prove("post:COMPLETE-nothing-else-is-excluded-(beyond-sorting-the-first-k-1-elements)", z3.Implies(full, H), prop=P)
+        c.prove("post:COMPLETE-nothing-else-is-excluded-(beyond-sorting-the-first-k-1-elements)", z3.Implies(full, H), prop=None, kind="complete")
 
     def concrete(inst):
         def hc(c, f):
@@ -1515,7 +1547,7 @@ def u_mingenset(wt, multi):
             full = z3.And(*rows)
             c.prove("instance:product-bound-covers-total-and-every-number", z3.And(pi_ub >= total, *[pi_ub >= NUM(j) for j in range(n)]), prop=P)
             c.prove("instance:SOUND-every-admitted-assignment-is-a-generating-set", z3.Implies(H, full), prop=P)
-            c.prove("instance:COMPLETE-nothing-else-is-excluded", z3.Implies(full, H), prop=P)
+            c.prove("instance:COMPLETE-nothing-else-is-excluded", z3.Implies(full, H), prop=None, kind="complete")
         return hc
 
     def instances():
@@ -1531,7 +1563,7 @@ def u_mingenset(wt, multi):
     class SWProxy:
         def __getattr__(self, k_):
             return getattr(st["sw"], k_)
-    return Unit("flowpaths/mingenset.py", "MinGenSet._create_solver", h, globs=dict(utils=UtilsStub, sw=SWProxy()), loops=loops, props=[P],
+    return Unit("flowpaths/mingenset.py", "MinGenSet._create_solver", h, globs=dict(utils=UtilsStub, sw=SWProxy()), loops=split_loops(loops, P), props=[P],
                 name="flowpaths/mingenset.py:MinGenSet._create_solver[weight_type=%s,%s]" % (wt.__name__, "max_multiplicity>=2" if multi else "max_multiplicity=1"), instances=instances,
                 callee_contracts=[A1C, "MinGenSet._encode_symmetry_breaking (elements 0..k-2 sorted)"],
                 assumptions=[A3, "no partition constraints (that encoder is decided by the bounded part)",
@@ -1562,10 +1594,12 @@ def u_symmetry_breaking():
         me.genset_vars = VarMap("genset_vars", B, lambda i: z3.And(i >= 0, i < k), 1)
         st["H0"] = lift(sol.store.holds)
         f(me, Sym(k))
-        c.prove("post:exactly-the-rows-b(i)<=b(i+1)-for-i<k-2-(the-last-element-stays-free)", lift(sol.store.holds) == z3.And(st["H0"], z3.ForAll([i_], z3.Implies(z3.And(i_ >= 0, i_ < k - 2), B(i_) <= B(i_ + 1)))), prop=P)
+        rows_ = z3.And(st["H0"], z3.ForAll([i_], z3.Implies(z3.And(i_ >= 0, i_ < k - 2), B(i_) <= B(i_ + 1))))
+        c.prove("post:SOUND-elements-0..k-2-are-sorted", z3.Implies(lift(sol.store.holds), rows_), prop=P)
+        c.prove("post:COMPLETE-only-the-rows-b(i)<=b(i+1)-for-i<k-2-(the-last-element-stays-free)", z3.Implies(rows_, lift(sol.store.holds)), prop=None, kind="complete")
     fresh = lambda old: Sym(z3.Bool(core.ctx().name("H")))
     return Unit("flowpaths/mingenset.py", "MinGenSet._encode_symmetry_breaking", h, globs=dict(utils=UtilsStub), props=[P],
-                loops={0: dict(inv=inv, prop=P, modifies=[(("self", "solver", "store", "holds"), fresh)], keep=("i",))}, callee_contracts=[A1C], assumptions=[A3])
+                loops=split_loops({0: dict(inv=inv, prop=P, modifies=[(("self", "solver", "store", "holds"), fresh)], keep=("i",))}, P), callee_contracts=[A1C], assumptions=[A3])
 
 
 # =====================================================================================================================
@@ -1748,7 +1782,7 @@ def u_encode_walks(allow_empty):
                 z3.BoolVal(set(sol.created) == {"edge", "distance", "selected_edge"} and all(r["var_type"] == "integer" for r in sol.created.values())), prop=P)
         c.prove("post:SOUND-each-layer:-one-(at-most-one)-unit-leaves-the-source,-conservation-at-inner-nodes,-every-entered-node-has-exactly-one-selected-used-in-edge,-distances-start-at-1-and-increase-along-selected-edges",
                 z3.Implies(H, full), prop=P)
-        c.prove("post:COMPLETE-nothing-else-is-excluded", z3.Implies(full, H), prop=P)
+        c.prove("post:COMPLETE-nothing-else-is-excluded", z3.Implies(full, H), prop=None, kind="complete")
 
     def concrete(inst):
         def hc(c, f):
@@ -1800,7 +1834,7 @@ def u_encode_walks(allow_empty):
                 rows += [out_s <= 1 if allow_empty else out_s == 1, D(s0, i) == 1]
             full = z3.And(H0, *rows)
             c.prove("instance:SOUND-the-rows-of-the-walk-formulation-hold-in-every-admitted-assignment", z3.Implies(H, full), prop=P)
-            c.prove("instance:COMPLETE-nothing-else-is-excluded", z3.Implies(full, H), prop=P)
+            c.prove("instance:COMPLETE-nothing-else-is-excluded", z3.Implies(full, H), prop=None, kind="complete")
         return hc
 
     def instances():
@@ -1822,7 +1856,7 @@ def u_encode_walks(allow_empty):
             return Solver.quicksum(None, it)
         return st["sum_builtin"](it)
     return Unit("flowpaths/abstractwalkmodeldigraph.py", "AbstractWalkModelDiGraph._encode_walks", h,
-                globs=dict(utils=UtilsStub, sum=sum_builtin, len=lambda x: (st["len_"](x) if isinstance(x, LazyProduct) else BUILTINS["len"](x))), loops=loops, props=["C01", "C14"],
+                globs=dict(utils=UtilsStub, sum=sum_builtin, len=lambda x: (st["len_"](x) if isinstance(x, LazyProduct) else BUILTINS["len"](x))), loops=split_loops(loops, P), props=["C01", "C14"],
                 name="flowpaths/abstractwalkmodeldigraph.py:AbstractWalkModelDiGraph._encode_walks[allow_empty_walks=%s]" % allow_empty, callee_contracts=[A1C], instances=instances,
                 assumptions=[A3, "A2 networkx: successors / predecessors enumerate the out- / in-neighbours; source and sink are nodes; edge endpoints are nodes",
                              "LM (not proved here): an assignment satisfying these rows is, per layer, the multiplicity vector of ONE closed-under-connectivity source-to-sink walk "
